@@ -153,7 +153,7 @@ func whereCase(rp Replay) (*Case, error) {
 	} else {
 		if !v.evaluable {
 			if v.badLike && !v.other {
-				fail("where-like-bad-pattern-accepted", fmt.Sprintf("%q has a malformed LIKE pattern and is accepted by BuildWhereExpFunc (whereeval.go: `_, err := path.Match` shadows err)", rp.Text))
+				fail("where-like-bad-pattern-accepted", fmt.Sprintf("%q has a malformed LIKE pattern and is accepted by BuildWhereExpFunc (whereeval.go, LIKE cases: the error of the path.Match probe must be the function's result, not a shadowed err)", rp.Text))
 			} else {
 				fail("where-unevaluable-accepted", fmt.Sprintf("%q cannot be evaluated but is accepted", rp.Text))
 			}
@@ -333,7 +333,8 @@ func queryCase(st *store, rp Replay) (*Case, error) {
 		v := classify(exp, parseTime)
 		evaluable = v.evaluable
 		if !evaluable && v.badLike {
-			// a nil closure would panic inside the server; the stale-closure form is covered by the corpus case
+			// (only when the malformed pattern is accepted, i.e. a regression of whereeval.go) a nil closure would
+			// panic inside the server; the stale-closure form is covered by the corpus case
 			var probe bool
 			f, berr := lql.BuildWhereExpFuncByExpression(exp)
 			if berr == nil {
@@ -460,9 +461,10 @@ func genStore(r *Rng, tsPool []int64, n int) []Ev {
 }
 
 var corpus = []Replay{
-	// the stale closure: evaluates as msg CONTAINS "zzz"
+	// the witnesses of the repaired defect (a malformed LIKE pattern must be a build error): before the repair of
+	// whereeval.go the first built the closure of msg CONTAINS "zzz" alone (the stale closure)
 	{Kind: "where", Stream: "corpus", Text: `msg CONTAINS "zzz" AND msg LIKE "[a"`, Events: []Ev{{Ts: 1, Msg: "a zzz b"}, {Ts: 2, Msg: "abc"}, {Ts: 3, Msg: "[a"}}},
-	// the nil closure: panics on first use
+	// ... and the second the nil closure, which panics on first use
 	{Kind: "where", Stream: "corpus", Text: `msg LIKE "[a"`, Events: []Ev{{Ts: 1, Msg: "abc"}}},
 	{Kind: "where", Stream: "corpus", Text: `fields:a LIKE "a[" OR msg PREFIX "x"`, Events: []Ev{{Ts: 1, Msg: "xyz", Fields: [][2]string{{"a", "a["}}}}},
 	{Kind: "where", Stream: "corpus", Text: `NOT (ts < 10 OR msg contains "b") AND upper(lower(fields:a)) = "X" OR limit = 5`, Events: []Ev{{Ts: 11, Msg: "c", Fields: [][2]string{{"a", "x"}}}}},
